@@ -69,7 +69,12 @@ def build(case):
                 tail = ["", "", "{.cls}", "{#rid%d%d}" % (n, j), "{k=v}", "{.a .b}", "{}", "{sub}`2`", ":", "^"][(n * 7 + j * 3) % 10] if case.get("exts") else ""
                 parts.append(f"r{n}x{j}[^{lab}]{tail}")
                 events.append(("ref", lab, f"r{n}x{j}"))
-            L = contain(it[2] if len(it) > 2 else "top", [" ".join(parts) + " end"])
+            if len(it) > 2 and it[2] == "quote-directive":
+                # a quote directive with an attribution line: the references of the body come first, those of the attribution after them
+                kb = 1 + (len(labels) + 1) // 2
+                L = ["~~~~{" + ["epigraph", "pull-quote", "highlights"][n % 3] + "}", " ".join(parts[:kb]) + " end", "", "-- attribution " + " ".join(parts[kb:]) + " done", "~~~~"]
+            else:
+                L = contain(it[2] if len(it) > 2 else "top", [" ".join(parts) + " end"])
             lines += L + [""]
         elif it[0] == "def":
             lab, cont, inner = it[1], it[2], it[3]
@@ -327,7 +332,7 @@ def make_case(R):
         items.append(["def", lab, R.choice(["top", "top", "top", "quote", "list", "note"]), inner, R.random() < 0.2])
     for _ in range(R.randint(0, 5)):
         labs = [R.choice(pool + ["missing"] if R.random() < 0.15 else pool) for _ in range(R.randint(1, 3))]
-        items.insert(R.randint(0, len(items)), ["para", labs, R.choice(["top", "top", "quote", "list", "note", "admon-title", "topic-title", "table-caption", "figure-caption"])])
+        items.insert(R.randint(0, len(items)), ["para", labs, R.choice(["top", "top", "quote", "list", "note", "admon-title", "topic-title", "table-caption", "figure-caption", "quote-directive"])])
     for _ in range(R.choice([0, 0, 1])):
         items.insert(R.randint(0, len(items)), ["heading"])
     for _ in range(R.choice([0, 1])):
